@@ -18,25 +18,41 @@ import (
 type Expr interface{}
 
 type (
-	EIdent  struct{ Name string }
-	EInt    struct{ V string }
-	EFloat  struct{ V float64 }
-	EStr    struct{ V string }
-	EBool   struct{ V bool }
-	ENil    struct{}
-	EUnary  struct{ Op string; X Expr }
-	EBinary struct{ Op string; X, Y Expr }
-	ECond   struct{ C, A, B Expr }
-	ESel    struct{ X Expr; Name string }
-	EIndex  struct{ X, I Expr }
-	ECall   struct{ Fn Expr; Args []Expr; TArgs []*TypeExpr }
-	EOld    struct{ X Expr }
-	EQuant  struct {
+	EIdent struct{ Name string }
+	EInt   struct{ V string }
+	EFloat struct{ V float64 }
+	EStr   struct{ V string }
+	EBool  struct{ V bool }
+	ENil   struct{}
+	EUnary struct {
+		Op string
+		X  Expr
+	}
+	EBinary struct {
+		Op   string
+		X, Y Expr
+	}
+	ECond struct{ C, A, B Expr }
+	ESel  struct {
+		X    Expr
+		Name string
+	}
+	EIndex struct{ X, I Expr }
+	ECall  struct {
+		Fn    Expr
+		Args  []Expr
+		TArgs []*TypeExpr
+	}
+	EOld   struct{ X Expr }
+	EQuant struct {
 		Forall bool
 		Vars   []Param
 		Body   Expr
 	}
-	EAssertT struct{ X Expr; T *TypeExpr } // x.(T)
+	EAssertT struct {
+		X Expr
+		T *TypeExpr
+	} // x.(T)
 )
 
 type TypeExpr struct {
@@ -95,39 +111,39 @@ type CallAssert struct {
 }
 
 type FuncSpec struct {
-	Pkg       string // package path of the spec file ("" for extern files)
-	Key       string // as written: Recv.Name / Name / full name
-	Extern    bool
-	IsCallSpec bool
-	Requires  []*Clause
-	Ensures   []*Clause
-	Modifies  []Expr
-	ModAll    bool // "modifies *"
-	HasMod    bool
-	Pure      bool
-	Func      bool // deterministic function of its arguments (implies Pure)
-	Inline    bool
-	Trusted   bool
-	TrustedTags []string // trusted[TAGS]: trusted only while one of these properties is being checked
-	Ghosts    []Param
-	CallSpecs map[string]*FuncSpec
-	Loops     map[int]*LoopSpec
-	Before    []*CallAssert
-	Sweep     []string // sweep kinds requested: typeassert, close, nilmap, index, lock
-	SweepTags []string
-	Params    []string // for extern / callspec: parameter names in order (optional)
-	Line      string
-	Used      bool
-	Fresh     bool // result is a freshly allocated reference
-	Holds     []HoldDecl
-	CallersNeed []string // properties under which every module function calling this one must itself be under contract
-	CallersChecked []string // properties under which every module function calling this one is checked (so that its tagged requires are obligations at every call)
-	Waive     []string // obligations of this function whose name contains one of these labels are not generated (documented gaps)
-	NoSweep   []string // sweep kinds not generated for this function (reason goes to DESIGN.md / evidence)
-	Records   [][2]string // (ghost, parameter or retN): the engine stores that value in the ghost at every call
-	Counted   []string // ghost counters bumped by the engine at every call of this function
-	CountedWhen []CountWhen // counted g when <expr over the results>: bumped at the calls whose outcome satisfies expr
-	Helper    bool // internal helper: type invariants are neither assumed nor checked at its boundary
+	Pkg            string // package path of the spec file ("" for extern files)
+	Key            string // as written: Recv.Name / Name / full name
+	Extern         bool
+	IsCallSpec     bool
+	Requires       []*Clause
+	Ensures        []*Clause
+	Modifies       []Expr
+	ModAll         bool // "modifies *"
+	HasMod         bool
+	Pure           bool
+	Func           bool // deterministic function of its arguments (implies Pure)
+	Inline         bool
+	Trusted        bool
+	TrustedTags    []string // trusted[TAGS]: trusted only while one of these properties is being checked
+	Ghosts         []Param
+	CallSpecs      map[string]*FuncSpec
+	Loops          map[int]*LoopSpec
+	Before         []*CallAssert
+	Sweep          []string // sweep kinds requested: typeassert, close, nilmap, index, lock
+	SweepTags      []string
+	Params         []string // for extern / callspec: parameter names in order (optional)
+	Line           string
+	Used           bool
+	Fresh          bool // result is a freshly allocated reference
+	Holds          []HoldDecl
+	CallersNeed    []string    // properties under which every module function calling this one must itself be under contract
+	CallersChecked []string    // properties under which every module function calling this one is checked (so that its tagged requires are obligations at every call)
+	Waive          []string    // obligations of this function whose name contains one of these labels are not generated (documented gaps)
+	NoSweep        []string    // sweep kinds not generated for this function (reason goes to DESIGN.md / evidence)
+	Records        [][2]string // (ghost, parameter or retN): the engine stores that value in the ghost at every call
+	Counted        []string    // ghost counters bumped by the engine at every call of this function
+	CountedWhen    []CountWhen // counted g when <expr over the results>: bumped at the calls whose outcome satisfies expr
+	Helper         bool        // internal helper: type invariants are neither assumed nor checked at its boundary
 }
 
 type CountWhen struct {
@@ -142,24 +158,31 @@ type LockInv struct {
 }
 
 type TypeSpec struct {
-	Pkg      string
-	Name     string
-	Guarded  []GuardDecl
-	Final    []string
-	FinalTags []string
+	Pkg        string
+	Name       string
+	Guarded    []GuardDecl
+	Final      []string
+	FinalTags  []string
 	FinalDecls []FinalDecl
-	Frozen   []FinalDecl // frozen[TAGS] except a, b: every field of the struct (also ones added later) is final, except the listed ones
-	LockInvs []LockInv // monitor invariants: assumed after acquiring the lock, checked before releasing it
-	Transient []FinalDecl // map fields: an entry a function inserts is gone again when that function returns
-	Inits    []string // functions that run before the object is shared: exempt from final/guarded checks, no establishment obligation
-	Owns     []string // channel fields whose closed-state only the private writers change
-	Private  []PrivateDecl
-	Atomic   []string
-	Confined []string
-	HB       []string
-	Invs     []*Clause
-	Ctors    []string
-	Line     string
+	Frozen     []FinalDecl // frozen[TAGS] except a, b: every field of the struct (also ones added later) is final, except the listed ones
+	LockInvs   []LockInv   // monitor invariants: assumed after acquiring the lock, checked before releasing it
+	Wire       []WireDecl  // wire[TAGS] Field as name, ...: the field is always encoded under exactly that JSON member name
+	Transient  []FinalDecl // map fields: an entry a function inserts is gone again when that function returns
+	Inits      []string    // functions that run before the object is shared: exempt from final/guarded checks, no establishment obligation
+	Owns       []string    // channel fields whose closed-state only the private writers change
+	Private    []PrivateDecl
+	Atomic     []string
+	Confined   []string
+	HB         []string
+	Invs       []*Clause
+	Ctors      []string
+	Line       string
+}
+
+type WireDecl struct {
+	Pairs [][2]string // field, member name
+	Tags  []string
+	Line  string
 }
 
 type FinalDecl struct {
@@ -200,11 +223,11 @@ type PredSpec struct {
 type GhostSpec struct {
 	Stable   bool // changed only through explicit modifies clauses, never by calls to unknown code
 	Monotone bool // never decreases (Int) / never becomes false again (Bool): survives calls to unknown code as such
-	Pkg    string
-	Name   string
-	Params []Param // empty => scalar global
-	T      *TypeExpr
-	Line   string
+	Pkg      string
+	Name     string
+	Params   []Param // empty => scalar global
+	T        *TypeExpr
+	Line     string
 }
 
 type LemmaSpec struct {
@@ -350,7 +373,7 @@ type parser struct {
 }
 
 func (p *parser) peek() tok { return p.toks[p.p] }
-func (p *parser) next() tok  { t := p.toks[p.p]; p.p++; return t }
+func (p *parser) next() tok { t := p.toks[p.p]; p.p++; return t }
 func (p *parser) isOp(s string) bool {
 	t := p.peek()
 	return t.k == "op" && t.s == s
@@ -653,7 +676,7 @@ var clauseKeywords = map[string]bool{
 	"pred": true, "fun": true, "lemma": true, "ghost": true, "func": true, "extern": true, "type": true,
 	"callspec": true, "requires": true, "ensures": true, "modifies": true, "pure": true, "function": true, "inline": true,
 	"trusted": true, "loop": true, "before": true, "sweep": true, "guarded": true, "final": true, "atomic": true,
-	"confined": true, "frozen": true, "transient": true, "lockinv": true, "private": true, "owns": true, "init": true, "holds": true, "helper": true, "counted": true, "records": true, "sweepscope": true, "nosweep": true, "waive": true, "callers-need-contract": true, "callers-checked": true, "hb-by-channel": true, "invariant": true, "ctor": true, "params": true, "fresh": true, "end": true,
+	"confined": true, "frozen": true, "transient": true, "lockinv": true, "private": true, "owns": true, "init": true, "holds": true, "helper": true, "counted": true, "records": true, "sweepscope": true, "nosweep": true, "waive": true, "callers-need-contract": true, "callers-checked": true, "hb-by-channel": true, "invariant": true, "ctor": true, "params": true, "fresh": true, "wire": true, "end": true,
 }
 
 type rawClause struct {
@@ -1096,7 +1119,7 @@ func parseSpecFile(path string, pkgPath string) (*SpecFile, error) {
 				return nil, err
 			}
 			curF.Before = append(curF.Before, &CallAssert{callee, ord, c})
-		case "guarded", "final", "frozen", "transient", "lockinv", "atomic", "confined", "hb-by-channel", "ctor", "invariant", "private", "owns", "init":
+		case "guarded", "wire", "final", "frozen", "transient", "lockinv", "atomic", "confined", "hb-by-channel", "ctor", "invariant", "private", "owns", "init":
 			if curT == nil {
 				return fail(fmt.Errorf("%s outside type", kw))
 			}
@@ -1108,6 +1131,17 @@ func parseSpecFile(path string, pkgPath string) (*SpecFile, error) {
 					return fail(fmt.Errorf("guarded ... by lock"))
 				}
 				curT.Guarded = append(curT.Guarded, GuardDecl{Fields: splitNames(body[:k]), Lock: strings.TrimSpace(body[k+4:]), Tags: tags})
+			case "wire":
+				tags, _, body := parseTags(rest)
+				wd := WireDecl{Tags: tags, Line: rc.line}
+				for _, part := range strings.Split(body, ",") {
+					fs := strings.Fields(part)
+					if len(fs) != 3 || fs[1] != "as" {
+						return fail(fmt.Errorf("wire: expected 'Field as member'"))
+					}
+					wd.Pairs = append(wd.Pairs, [2]string{fs[0], fs[2]})
+				}
+				curT.Wire = append(curT.Wire, wd)
 			case "final":
 				tags, _, body := parseTags(rest)
 				curT.FinalTags = append(curT.FinalTags, tags...)
